@@ -7,16 +7,12 @@ sys.path.insert(0, "/verif/pylib")
 import orch
 
 THRASH = "option tuple without guaranteed progress (restarts on while learned nogoods are deleted above a tiny limit, or nothing is learned): the solve does not terminate within the poll budget"
-CORE = "extract_core panics in the resolver: the final nogood contains a predicate that is not on the trail (a violated assumption merged with an earlier one by semantic minimisation) and get_trail_position(..).unwrap() fails"
 SPEC = []
 for P in ["C02", "C03", "C05", "C07", "C09", "C18"]:
     SPEC.append((P, P + "-thrash-no-termination", ["opt.thrash"], r"^(budget-exhausted|hang)", THRASH))
 SPEC += [
   ("C05", "C05-no-learning-assumptions", ["opt.no_learning"], r".", "the no-learning resolver flips assumptions like decisions and asserts on assumption levels without a decision entry: panics / unusable cores under assumptions"),
-  ("C05", "C05-assumption-false-at-root", ["assume.model_false"], r"^(core-not-implied-by-assumptions|core-panic)", "an assumption that is false in every solution of the model: the core contains a predicate that is not a consequence of the assumptions / extract_core panics"),
-  ("C05", "C05-core-panic-resolver", [], r"^core-panic.*resolution_resolver", CORE),
-  ("C10", "C10-core-panic-resolver", ["history.assumptions"], r"extract_core.*resolution_resolver", CORE),
-  ("C10", "C10-core-panic-after-optimise", ["history.optimise", "history.assumptions"], r"^panic: .*extract_core", "extract_core panics in a history that contains an earlier optimisation (objective facts at the root without a reason)"),
+  ("C05", "C05-core-tightened-by-root-hole", [], r"^core-not-implied-by-assumptions", "the trail stores an assumption in its propagated form ([x >= 4] posted on a domain from which root propagation has removed 4 is stored as [x >= 5]) and the core cites that form, which is not a consequence of the assumptions alone; likewise for an assumption that is false in every solution of the model"),
   ("C06", "C06-scaffold-sat-unsat-cuts-missing", ["proof.scaffold", "proof.sat-unsat"], r"^nogood-not-implied", "scaffold proof of a linear SAT-UNSAT optimisation does not contain the objective cuts its nogoods depend on"),
   ("C06", "C06-hints-incomplete", ["proof.hinted"], r"^hints-insufficient", "hinted proof: a nogood follows by propagation from the earlier steps but not from the steps named in its hints (a unit nogood behind a root-level fact is missing from the hints)"),
   ("C06", "C06-root-premise-not-true", [], r"assertion failed: self.assignments.is_predicate_s", "full / hinted proof: logging a root propagation asserts on a reason predicate that is not true; seen with new_literal_for_predicate for a predicate that is already decided at the root, and with a reified constraint in which the reification literal itself occurs (b <-> (b != x - 1): the literal is set to false with a reason that contains [b == 1])"),
